@@ -75,11 +75,19 @@ func (s *rSigner) noneReleased() bool {
 	return true
 }
 
-type rPool struct{ fail bool }
+type rPool struct {
+	fail       bool
+	withParent bool // the renter's input is unconfirmed: its parent comes first in the set
+}
+
+var rPoolParent = types.V2Transaction{ArbitraryData: []byte("parent of the renter's input")}
 
 func (p rPool) V2TransactionSet(basis types.ChainIndex, txn types.V2Transaction) (types.ChainIndex, []types.V2Transaction, error) {
 	if p.fail {
 		return types.ChainIndex{}, nil, errors.New("pool: unknown parent")
+	}
+	if p.withParent {
+		return basis, []types.V2Transaction{rPoolParent, txn}, nil
 	}
 	return basis, []types.V2Transaction{txn}, nil
 }
@@ -90,12 +98,12 @@ func (p rPool) V2TransactionSet(basis types.ChainIndex, txn types.V2Transaction)
 // verifies, its id is derived from the renter's own transaction, and the
 // host's set ends in that very transaction.
 //
-//verif:harness prop=C16 tier=quick replay=native go=skip require=formed,failed-released,unfunded bounds="1..2 renter inputs; funding / pool lookup fail by selector; host funding below / equal to / above the collateral; the host stops after 0, 1 or 2 messages; final set: genuine / empty / without contract / a different transaction (altered fee, extra output, other contract terms) / forged or foreign host signature"
+//verif:harness prop=C16 tier=quick replay=native go=skip require=formed,failed-released,unfunded bounds="1..2 renter inputs, confirmed or with one unconfirmed parent; funding / pool lookup fail by selector; host funding below / equal to / above the collateral; the host stops after 0, 1 or 2 messages; final set: genuine / empty / without contract / a different transaction (altered fee, extra output, other contract terms) / forged or foreign host signature"
 func VerifH_C16_renter_form() {
 	hostKey, renterKey := keyFromByte(1), keyFromByte(2)
 	sg := &rSigner{key: renterKey, nInputs: vapi.Int("renter-inputs", 1, 2), reserved: map[types.SiacoinOutputID]bool{}, released: map[types.SiacoinOutputID]bool{}}
 	sg.failFund = vapi.Bool("fund-fails")
-	pool := rPool{fail: vapi.Bool("pool-fails")}
+	pool := rPool{fail: vapi.Bool("pool-fails"), withParent: vapi.Bool("unconfirmed-input")}
 	hw := &hostWorld{hostKey: hostKey}
 	w := newClientWorld(0)
 	prices := w.prices
@@ -151,23 +159,28 @@ func VerifH_C16_renter_form() {
 			sigHash := cs.ContractSigHash(fc)
 			txn.FileContracts[0].HostSignature = hostKey.SignHash(sigHash)
 			resp := proto4.RPCFormContractThirdResponse{Basis: req.Basis, TransactionSet: []types.V2Transaction{txn}}
+			if len(req.RenterParents) > 0 {
+				// parents first, the formation transaction last
+				resp.TransactionSet = append(append([]types.V2Transaction(nil), req.RenterParents...), txn)
+			}
+			lastIdx := len(resp.TransactionSet) - 1
 			switch final {
 			case 1:
 				resp.TransactionSet = nil
 			case 2:
-				resp.TransactionSet[0].FileContracts = nil
+				resp.TransactionSet[lastIdx].FileContracts = nil
 			case 3: // a different transaction: the fee was changed
-				resp.TransactionSet[0].MinerFee = req.MinerFee.Add(types.NewCurrency64(1))
+				resp.TransactionSet[lastIdx].MinerFee = req.MinerFee.Add(types.NewCurrency64(1))
 			case 4: // a different transaction: other contract terms, signed by the host
 				other := fc
 				other.HostOutput.Value = other.HostOutput.Value.Add(types.NewCurrency64(1))
 				other.RenterSignature = second.RenterContractSignature
 				other.HostSignature = hostKey.SignHash(cs.ContractSigHash(other))
-				resp.TransactionSet[0].FileContracts[0] = other
+				resp.TransactionSet[lastIdx].FileContracts[0] = other
 			case 5:
-				resp.TransactionSet[0].FileContracts[0].HostSignature = types.Signature(vapi.ForgedSig("hostsig"))
+				resp.TransactionSet[lastIdx].FileContracts[0].HostSignature = types.Signature(vapi.ForgedSig("hostsig"))
 			case 6: // signed by somebody else
-				resp.TransactionSet[0].FileContracts[0].HostSignature = keyFromByte(9).SignHash(sigHash)
+				resp.TransactionSet[lastIdx].FileContracts[0].HostSignature = keyFromByte(9).SignHash(sigHash)
 			}
 			return encResp(&resp)
 		}
